@@ -700,6 +700,78 @@ theorem truncate_perturbed (eps eta : ℝ) (v w : Vec ℂ n) (hv : ∀ a, (v.get
 example : truncate (1/10 : ℝ) (Vec.ofFn fun _ : Fin 1 => Complex.I) = .error .imag :=
   (truncate_raises_iff _ _).2 ⟨0, by simp; norm_num, by simp⟩
 
+section blocks
+variable {m : Nat}
+open QM.Psd in
+/-- C04.2 blocks, executed function: a successful `Povm.projIneq` (the function the driver runs: per-element `projIneqCore`, results
+sequenced) returns in row `k` exactly the result of the core projection of element `k`. -/
+theorem povm_projIneq_blocks (B : Vector (Mat ℂ d d) n) (eps : ℝ) (eig : Vector (Vec ℝ d × Mat ℂ d d) m) (P : Mat ℝ m n)
+    (h : Povm.projIneq B eps eig = .ok P) (k : Fin m) : projIneqCore B eps eig[k].1 eig[k].2 = .ok P[k] := by
+  have := seqV_ok _ P h k
+  simpa using this
+
+open QM.Psd in
+/-- the same for `MProcess.projIneq` (per-outcome `Gate.projIneq`, i.e. the core projection w.r.t. the Choi basis). -/
+theorem mprocess_projIneq_blocks (B : Vector (Mat ℂ d d) n) (eps : ℝ)
+    (eig : Vector (Vec ℝ (d * d) × Mat ℂ (d * d) (d * d)) m) (P : Mat ℝ m (n * n))
+    (h : MProcess.projIneq B eps eig = .ok P) (k : Fin m) :
+    projIneqCore (kronBasis B) eps eig[k].1 eig[k].2 = .ok P[k] := by
+  have := seqV_ok _ P h k
+  simpa [Gate.projIneq] using this
+
+open QM.Psd in
+/-- C04.2 for the executed `Povm.projIneq`, complete basis: given exact eigh results for every element, the routine does not
+raise, every element of the result is PSD, and the result is the nearest POVM-parameter array (Euclidean norm of the stacked
+parameters) among all arrays with PSD elements. -/
+theorem povm_projIneq_spec_partial (B : Vector (Mat ℂ d d) (d * d)) (hB : OrthoN (basisM B)) (hH : HermB B)
+    (X : Mat ℝ m (d * d)) (eig : Vector (Vec ℝ d × Mat ℂ d d) m)
+    (hU : ∀ k : Fin m, eig[k].2.toMᴴ * eig[k].2.toM = 1) (hA : ∀ k : Fin m, matOfVec B X[k] = rebuild eig[k].2 eig[k].1) :
+    ∃ P, Povm.projIneq B (0 : ℝ) eig = .ok P ∧ (∀ k : Fin m, (matOfVec B P[k]).toM.PosSemidef) ∧
+      ∀ Y : Mat ℝ m (d * d), (∀ k : Fin m, (matOfVec B Y[k]).toM.PosSemidef) → sqd2 X P ≤ sqd2 X Y := by
+  have hs := fun k : Fin m => projIneqCore_spec_partial B hB hH X[k] eig[k].1 eig[k].2 (hU k) (hA k)
+  choose p hp using hs
+  refine ⟨Vector.ofFn p, ?_, ?_, ?_⟩
+  · unfold Povm.projIneq
+    apply seqV_of_ok
+    intro k; simpa using (hp k).1
+  · intro k; simpa using (hp k).2.1
+  · intro Y hY
+    rw [sqd2_rows, sqd2_rows]
+    apply Finset.sum_le_sum; intro k _
+    simpa using ((hp k).2.2 Y[k] (hY k)).2
+
+open QM.Psd in
+/-- C04.2 for the executed `MProcess.projIneq`, complete basis (each outcome through the Choi basis). -/
+theorem mprocess_projIneq_spec_partial (B : Vector (Mat ℂ d d) (d * d)) (hB : OrthoN (basisM B)) (hH : HermB B)
+    (X : Mat ℝ m ((d * d) * (d * d))) (eig : Vector (Vec ℝ (d * d) × Mat ℂ (d * d) (d * d)) m)
+    (hU : ∀ k : Fin m, eig[k].2.toMᴴ * eig[k].2.toM = 1)
+    (hA : ∀ k : Fin m, matOfVec (kronBasis B) X[k] = rebuild eig[k].2 eig[k].1) :
+    ∃ P, MProcess.projIneq B (0 : ℝ) eig = .ok P ∧ (∀ k : Fin m, (matOfVec (kronBasis B) P[k]).toM.PosSemidef) ∧
+      ∀ Y : Mat ℝ m ((d * d) * (d * d)), (∀ k : Fin m, (matOfVec (kronBasis B) Y[k]).toM.PosSemidef) → sqd2 X P ≤ sqd2 X Y := by
+  have hs := fun k : Fin m => gate_projIneq_spec_partial B hB hH X[k] eig[k].1 eig[k].2 (hU k) (hA k)
+  choose p hp using hs
+  refine ⟨Vector.ofFn p, ?_, ?_, ?_⟩
+  · unfold MProcess.projIneq
+    apply seqV_of_ok
+    intro k; simpa using (hp k).1
+  · intro k; simpa using (hp k).2.1
+  · intro Y hY
+    rw [sqd2_rows, sqd2_rows]
+    apply Finset.sum_le_sum; intro k _
+    simpa using ((hp k).2.2 Y[k] (hY k)).2
+
+-- non-vacuity on the real qubit basis (the eigh-contract hypotheses are satisfiable for every input: QProofs.C05Psd.eig_contract)
+open QM.Psd in
+example {m : Nat} (X : Mat ℝ m (2 * 2)) (eig : Vector (Vec ℝ 2 × Mat ℂ 2 2) m)
+    (hU : ∀ k : Fin m, eig[k].2.toMᴴ * eig[k].2.toM = 1)
+    (hA : ∀ k : Fin m, matOfVec (pauliB : Vector (Mat ℂ 2 2) (2 * 2)) X[k] = rebuild eig[k].2 eig[k].1) :
+    ∃ P, Povm.projIneq (pauliB : Vector (Mat ℂ 2 2) (2 * 2)) (0 : ℝ) eig = .ok P ∧
+      (∀ k : Fin m, (matOfVec pauliB P[k]).toM.PosSemidef) ∧
+      ∀ Y : Mat ℝ m (2 * 2), (∀ k : Fin m, (matOfVec pauliB Y[k]).toM.PosSemidef) → sqd2 X P ≤ sqd2 X Y :=
+  povm_projIneq_spec_partial pauliB pauli_orthoN pauli_hermB X eig hU hA
+
+end blocks
+
 /-- C04.3 the variable-level State routine with the parametrised constraint is the object-level result with the
 first coordinate dropped (definitional). -/
 theorem state_ineq_var_T (B : Vector (Mat ℂ d d) (n + 1)) (eps : ℝ) (lam : Vec ℝ d) (U : Mat ℂ d d) :
